@@ -95,6 +95,12 @@ CHECKS = {
             'answer or exception type is compared with the same call on a freshly built object, search_results() with what '
             'the last search returned (also retrieved twice), and dataclasses.asdict(parameters) / the input frame are '
             'compared around every call; thorough runs under three PYTHONHASHSEEDs.', '§5 C10'),
+    'C12': ('metamorphic run-pair monitor on the real searches (shuffle, date shift, id type, renaming, 2^k scaling)',
+            'The same search is run on an input and on a transformed copy (row shuffle, all dates shifted, int<->str IDs, '
+            'order-reversing renaming applied to frame and eligibility matrix, responses and budget range x 2^k) and the two '
+            'results compared position by position: groups (un-renamed) exact, discrete score entries exact, correlations '
+            'equal, impact-based entries scaled; exact-tie panels are handled by a tie guard; thorough runs under three '
+            'PYTHONHASHSEEDs.', '§5 C12'),
 }
 
 NOT_YET = {}
